@@ -269,6 +269,24 @@ func c13Gen(r *kit.Rng, id string) *req.Session {
 								rq.MustReject = !strings.HasPrefix(repl, "[") || (repl != "[]" && !strings.HasPrefix(repl, "[{"))
 							}
 						}
+					} else if payload == nil && loc.List != nil && src == "json" {
+						// the edit is rooted at a list selection: the document's one member must
+						// be an array of objects
+						repl := jsonRepl[r.Intn(len(jsonRepl))]
+						rq.Doc = fmt.Sprintf("{%q:%s}", loc.S.Name, repl)
+						rq.Damage = "shape-swap:list-at-entry-point"
+						rq.MustReject = !strings.HasPrefix(repl, "[") || (repl != "[]" && !strings.HasPrefix(repl, "[{"))
+					} else if payload == nil && loc.List != nil {
+						xi := r.Intn(3)
+						frag := strings.ReplaceAll([]string{"<%s>text</%s>", "<%s/>", "<%s><zz/></%s>"}[xi], "%s", loc.S.Name)
+						if r.Chance(1, 2) {
+							for _, e := range loc.List.Entries {
+								frag = e.XML(loc.S.Name) + frag
+							}
+						}
+						rq.Doc = "<x>" + frag + "</x>"
+						rq.Damage = "shape-swap:list-at-entry-point"
+						rq.MustReject = xi == 0
 					} else if payload != nil {
 						kids := payload.S.DataChildren()
 						if len(kids) > 0 {
